@@ -209,9 +209,55 @@ def run_units(pid, units, tier, seed, level, rule, assumptions, extra_cov=None, 
             if fails == 3:
                 violations.append((rp, u.name, msg or rout[-500:]))
             else:
-                # does not reproduce from the saved case: flaky harness, not believed
+                # The failure does not reproduce from its saved case in a fresh process: it depended on something an
+                # earlier case of the shard left behind in the process.  Re-run the shard with every case in its own
+                # forked child; a failing case found that way is self-contained and must replay.
                 os.unlink(rp)
-                raise InfraError("failure of %s does not reproduce from its saved case (%d/3): %s\n%s" % (u.name, fails, msg, rout[-2000:]))
+                confirmed = False
+                # (1) the cases that preceded it in the same process, replayed as one sequence
+                hist = base + ".fail.history"
+                if os.path.exists(hist):
+                    progs = open(hist).read().split("----\n")
+                    def seq_fails(ps):
+                        tmpf = base + ".seq.prog"
+                        open(tmpf, "w").write("----\n".join(ps))
+                        return replay_fails(u, tmpf, 1)[0] == 1
+                    if seq_fails(progs) and seq_fails(progs):
+                        # greedy minimisation of the sequence (the last program is the one judged to fail)
+                        i = 0; budget = 120
+                        while i < len(progs) - 1 and budget > 0:
+                            trial = progs[:i] + progs[i + 1:]
+                            budget -= 1
+                            if seq_fails(trial): progs = trial
+                            else: i += 1
+                        rp = save_replay(pid, "----\n".join(progs))
+                        f2, rout2 = replay_fails(u, rp, 3)
+                        if f2 == 3:
+                            violations.append((rp, u.name, "(needs the %d preceding program(s) of the replay file to run first in the same process: the library "
+                                               "keeps state between unrelated objects) %s" % (len(progs) - 1, msg)))
+                            confirmed = True
+                        else:
+                            os.unlink(rp)
+                # (2) every case of the shard isolated in its own process: a failing case found that way is self-contained
+                idx = [i for i, (mu, mb) in enumerate(meta) if mb == base][0]
+                ic, ienv = cmds[idx]
+                ibase = base + ".iso"
+                icmd = [ibase + ".fail" if a == base + ".fail" else (ibase + ".json" if a == base + ".json" else a) for a in ic] + ["--isolate", "1"]
+                ir = skv.run_procs([(icmd, ienv)], timeout=u.timeout)[0] if not confirmed else (0, "")
+                if ir[0] == 1 and os.path.exists(ibase + ".fail"):
+                    text = open(ibase + ".fail").read()
+                    msg2 = open(ibase + ".fail.msg").read().strip() if os.path.exists(ibase + ".fail.msg") else ""
+                    rp = save_replay(pid, text)
+                    f2, rout2 = replay_fails(u, rp, 3)
+                    if f2 == 3:
+                        violations.append((rp, u.name, msg2 or rout2[-500:]))
+                        confirmed = True
+                    else:
+                        os.unlink(rp)
+                if not confirmed:
+                    raise InfraError("failure of %s does not reproduce from its saved case (%d/3) and no self-contained failing case was found "
+                                     "with every case isolated in its own process: the verdict on a case depended on earlier cases of the same "
+                                     "process (state kept inside the library between calls on unrelated objects?): %s\n%s" % (u.name, fails, msg, rout[-1500:]))
         digest_info = compare_digests(pid, units, work, seed, violations)
         fuzz_info = None
         if fuzz and tier == "thorough":
